@@ -46,18 +46,18 @@ ITEMS = [
     dict(file=B, kind='fn', impl='BinaryExpression', name='operator', props=['C02', 'C08'],
          ensures=['r == self.spec_operator()'],
          desc='getter: returns the operator field'),
-    dict(file=B, kind='fn', impl='BinaryOperator', name='get_precedence', spec_twin=True, props=['C02'],
+    dict(file=B, kind='fn', impl='BinaryOperator', name='get_precedence', spec_twin=True, twin='vk_binary_precedes_contract', props=['C02'],
          ensures=['r == self.spec_get_precedence()'],
          desc='get_precedence equals its own body read as a specification (so callers are verified against the real table)'),
-    dict(file=B, kind='fn', impl='BinaryOperator', name='precedes', props=['C02'],
+    dict(file=B, kind='fn', impl='BinaryOperator', name='precedes', twin='vk_binary_precedes_contract', props=['C02'],
          ensures=['r == (lvl(*self) > lvl(other))'],
          desc='for all operator pairs: a.precedes(b) == (lvl(a) > lvl(b)), lvl = Lua 5.1 manual precedence table (order-isomorphism)'),
-    dict(file=B, kind='fn', impl='BinaryOperator', name='precedes_unary_expression', props=['C02'],
+    dict(file=B, kind='fn', impl='BinaryOperator', name='precedes_unary_expression', twin='vk_binary_precedes_unary_contract', props=['C02'],
          ensures=['r == (lvl(*self) > unary_lvl())'],
          desc='only `^` binds tighter than the unary operators'),
-    dict(file=B, kind='fn', impl='BinaryOperator', name='is_left_associative', props=['C02'],
+    dict(file=B, kind='fn', impl='BinaryOperator', name='is_left_associative', twin='vk_binary_is_left_associative_contract', props=['C02'],
          ensures=['r == !rassoc(*self)'], desc='left associative iff not `..` / `^`'),
-    dict(file=B, kind='fn', impl='BinaryOperator', name='is_right_associative', props=['C02'],
+    dict(file=B, kind='fn', impl='BinaryOperator', name='is_right_associative', twin='vk_binary_is_right_associative_contract', props=['C02'],
          ensures=['r == rassoc(*self)'], desc='right associative iff `..` / `^`'),
     dict(file=B, kind='fn', impl='BinaryOperator', name='left_needs_parentheses', props=['C02'],
          ensures=['left is Binary ==> (left_needed(*self, left->Binary_0.spec_operator()) ==> r)',
@@ -72,10 +72,10 @@ ITEMS = [
     dict(file='src/nodes/expressions/type_cast.rs', kind='fn', impl='TypeCastExpression', name='needs_parentheses', props=['C02'],
          ensures=['(expression is Binary || expression is Unary || expression is If || expression is TypeCast) ==> r'],
          desc='for EVERY expression: binary / unary / if / type-cast subjects of `::` are parenthesised (Luau: asexp ::= simpleexp :: Type)'),
-    dict(file='src/generator/utils.rs', kind='fn', name='should_break_with_space', props=['C02'],
+    dict(file='src/generator/utils.rs', kind='fn', name='should_break_with_space', twin='vk_utils_should_break_with_space_contract', props=['C02'],
          ensures=['fuses(ending_character, next_character) ==> r'],
          desc='for ALL pairs of chars: O-lex fuses(a, b) ==> should_break_with_space(a, b)'),
-    dict(file='src/process/evaluator/lua_value.rs', kind='fn', impl='LuaValue', name='is_truthy', props=['C08'],
+    dict(file='src/process/evaluator/lua_value.rs', kind='fn', impl='LuaValue', name='is_truthy', twin='vk_value_is_truthy_contract', props=['C08'],
          ensures=['*self is Unknown ==> r is None',
                   '(*self is Nil || *self is False) ==> r == Some(false)',
                   '!(*self is Unknown || *self is Nil || *self is False) ==> r == Some(true)'],
@@ -92,13 +92,13 @@ ITEMS = [
                   '(self is Nil || self is False) ==> default.ensures((), r)',
                   '!(self is Unknown || self is Nil || self is False) ==> map.ensures((self,), r)'],
          desc='`a or b` folding for EVERY value and EVERY pair of closures: Unknown stays Unknown; truthy -> map(self); falsy -> default()'),
-    dict(file='src/generator/utils.rs', kind='fn', name='needs_escaping', props=['C13', 'C14', 'C02'],
+    dict(file='src/generator/utils.rs', kind='fn', name='needs_escaping', twin='vk_utils_needs_escaping_contract', props=['C13', 'C14', 'C02'],
          ensures=['must_escape_in_quotes(character) ==> r'],
          desc='for ALL 256 bytes: backslash, newline, carriage return and every byte >= 0x80 need an escape in a quoted literal'),
-    dict(file='src/generator/utils.rs', kind='fn', name='needs_quoted_string', props=['C13', 'C14', 'C02'],
+    dict(file='src/generator/utils.rs', kind='fn', name='needs_quoted_string', twin='vk_utils_needs_quoted_string', props=['C13', 'C14', 'C02'],
          ensures=['*character == 0x0Du8 ==> r'],
          desc='for ALL 256 bytes: a carriage return can not be written raw inside a long bracket'),
-    dict(file='src/process/evaluator/mod.rs', kind='fn', impl='Evaluator', name='maybe_metatable', props=['C08'],
+    dict(file='src/process/evaluator/mod.rs', kind='fn', impl='Evaluator', name='maybe_metatable', twin='vk_eval_maybe_metatable_contract', props=['C08'],
          ensures=['*value is Unknown ==> r'],
          desc='an Unknown value may carry a metatable, in either evaluator mode'),
     dict(file='src/process/evaluator/mod.rs', kind='fn', impl='Evaluator', name='can_return_multiple_values', props=['C08'],
@@ -142,11 +142,11 @@ def _name_return(header):
         elif ch == '-' and header[i:i + 2] == '->' and depth == 0:
             idx = i
     if idx < 0:
-        raise ExtractError('no return type in `%s`' % header)
+        return header, '()'
     return header[:idx] + '-> (r: ' + header[idx + 2:].strip() + ')', header[idx + 2:].strip()
 
 
-def build(repo, out_path, prop=None):
+def build(repo, out_path, prop=None, extra=(), dropped=()):
     """Returns (text, index) where index maps generated line ranges to items."""
     cache = {}
 
@@ -164,10 +164,12 @@ def build(repo, out_path, prop=None):
              'use vstd::prelude::*;\nverus! {\n', prelude, '\n// ---- items cut verbatim out of /repo ----\n']
     impl_groups = {}
     order = []
-    for spec in ITEMS:
+    for spec in list(ITEMS) + list(extra):
+        if id(spec) in dropped:
+            continue
         # one generated file per property: functions under contract for OTHER properties are left
         # out, so an edit that takes one of them outside Verus' subset cannot disturb this check
-        if prop is not None and spec['kind'] == 'fn' and not spec.get('external_body') and prop not in spec.get('props', []):
+        if prop is not None and spec['kind'] == 'fn' and not spec.get('external_body') and not spec.get('helper') and prop not in spec.get('props', []):
             continue
         src, items = scan(spec['file'])
         try:
@@ -252,27 +254,89 @@ def run_for_property(prop, repo, out_dir, log):
         return {'obligation': 'verus_%s%s' % ((s['impl'] + '_') if s.get('impl') else '', s['name']), 'engine': 'verus+z3', 'kind': 'proof',
                 'functions': ['%s%s' % ((s['impl'] + '::') if s.get('impl') else '', s['name'])],
                 'contract': s.get('desc', '') + '  [ensures ' + ' && '.join(s.get('ensures', [])) + ']',
-                'bound': 'none (deductive, all inputs)', 'solver_s': round(secs, 4), 'verdict': verdict}
+                'bound': 'none (deductive, all inputs)', 'solver_s': round(secs, 4), 'verdict': verdict,
+                'complete_kani_twin': s.get('twin')}
 
-    try:
-        text, index = build(repo, out_path, prop)
-    except (ExtractError, rustscan.ScanError) as e:
-        return all_undecided('extract: %s' % e)
-    t0 = time.time()
-    try:
-        p = subprocess.run(['verus', out_path, '--output-json', '--time'], capture_output=True, text=True, timeout=600)
-    except subprocess.TimeoutExpired:
-        return all_undecided('verus timed out')
-    wall = time.time() - t0
-    open(os.path.join(out_dir, 'kernel_%s.stderr' % prop), 'w').write(p.stderr)
-    try:
-        data = json.loads(p.stdout[p.stdout.index('{'):])
-    except ValueError:
-        return all_undecided('verus produced no JSON: %s' % p.stderr[-300:])
+    extra, dropped, dropped_specs, notes = [], set(), [], []
+    data, p, index, wall = None, None, [], 0.0
+    for attempt in range(6):
+        try:
+            text, index = build(repo, out_path, prop, extra, dropped)
+        except (ExtractError, rustscan.ScanError) as e:
+            return all_undecided('extract: %s' % e)
+        t0 = time.time()
+        try:
+            p = subprocess.run(['verus', out_path, '--output-json', '--time'], capture_output=True, text=True, timeout=600)
+        except subprocess.TimeoutExpired:
+            return all_undecided('verus timed out')
+        wall += time.time() - t0
+        open(os.path.join(out_dir, 'kernel_%s.stderr' % prop), 'w').write(p.stderr)
+        try:
+            data = json.loads(p.stdout[p.stdout.index('{'):])
+        except ValueError:
+            return all_undecided('verus produced no JSON: %s' % p.stderr[-300:])
+        vr0 = data.get('verification-results', {})
+        n_fb = sum(len(m.get('function-breakdown', [])) for m in data.get('times-ms', {}).get('smt', {}).get('smt-run-module-times', []))
+        compile_failed = vr0.get('encountered-vir-error') or 'verified' not in vr0 or (n_fb == 0 and re.search(r'^error', p.stderr, re.M))
+        if not compile_failed:
+            break
+        # (a) a helper function the edited code now calls: extract it verbatim as well (no contract)
+        added = False
+        for m in re.finditer(r"error\[E0425\]: cannot find function `(\w+)` in this scope\n\s+--> [^:]+:(\d+):", p.stderr):
+            name, ln = m.group(1), int(m.group(2))
+            owner = [sp for (a, b, sp) in index if a <= ln <= b]
+            files = [owner[0]['file']] if owner else sorted({sp['file'] for sp in ITEMS})
+            for f in files:
+                try:
+                    src_f = open(os.path.join(repo, f)).read()
+                    rustscan.find_fn(rustscan.scan_items(src_f), name, None)
+                except (OSError, rustscan.ScanError):
+                    continue
+                if not any(e['name'] == name and e['file'] == f for e in extra):
+                    extra.append(dict(file=f, kind='fn', name=name, helper=True))
+                    notes.append('helper fn %s (%s) extracted verbatim, without a contract' % (name, f))
+                    added = True
+                break
+        for m in re.finditer(r"error\[E0599\]: no (?:method|function or associated item) named `(\w+)` found for[^\n]*?`(\w+)`[^\n]*\n\s+--> [^:]+:(\d+):", p.stderr):
+            name, ty, ln = m.group(1), m.group(2), int(m.group(3))
+            owner = [sp for (a, b, sp) in index if a <= ln <= b]
+            if not owner:
+                continue
+            f = owner[0]['file']
+            try:
+                src_f = open(os.path.join(repo, f)).read()
+                rustscan.find_fn(rustscan.scan_items(src_f), name, ty)
+            except (OSError, rustscan.ScanError):
+                continue
+            if not any(e['name'] == name and e.get('impl') == ty for e in extra):
+                extra.append(dict(file=f, kind='fn', impl=ty, name=name, helper=True))
+                notes.append('helper method %s::%s (%s) extracted verbatim, without a contract' % (ty, name, f))
+                added = True
+        if added:
+            continue
+        # (b) an item that no longer fits Verus' subset: leave exactly that item out (it becomes
+        #     undecided) so that the other obligations of this property are still decided
+        bad = []
+        for m in re.finditer(r'^error[^\n]*\n\s+--> [^:]+:(\d+):', p.stderr, re.M):
+            ln = int(m.group(1))
+            for (a, b, sp) in index:
+                if a <= ln <= b and sp.get('kind') == 'fn' and not sp.get('external_body') and id(sp) not in dropped and sp not in bad:
+                    bad.append(sp)
+        if not bad:
+            break
+        for sp in bad:
+            dropped.add(id(sp))
+            dropped_specs.append(sp)
+            if sp.get('helper') and sp in extra:
+                pass
+    for n in notes:
+        log('verus: ' + n)
     vr = data.get('verification-results', {})
-    if vr.get('encountered-vir-error') or 'verified' not in vr:
+    n_fb = sum(len(m.get('function-breakdown', [])) for m in data.get('times-ms', {}).get('smt', {}).get('smt-run-module-times', []))
+    if vr.get('encountered-vir-error') or 'verified' not in vr or (n_fb == 0 and re.search(r'^error', p.stderr, re.M)):
         first = re.findall(r'^error.*$', p.stderr, re.M)[:3]
         return all_undecided('verus rejected the extracted text (unsupported construct / type error): %s' % ' | '.join(first))
+    dropped_names = {('%s%s' % ((sp['impl'] + '::') if sp.get('impl') else '', sp['name'])) for sp in dropped_specs}
     per_fn = {}
     for mod in data.get('times-ms', {}).get('smt', {}).get('smt-run-module-times', []):
         for fb in mod.get('function-breakdown', []):
@@ -289,22 +353,37 @@ def run_for_property(prop, repo, out_dir, log):
         'Verus: ends_with_if_expression and ends_with_type_cast_to_type_name_without_type_parameters are external_body signatures with an UNINTERPRETED spec (nothing assumed; they only add parentheses)',
         'Verus extraction drops: doc comments, #[derive(..)] and #[default] lines; adds #[derive(Clone, Copy)] on BinaryOperator; names the return value; get_precedence body duplicated as spec_get_precedence',
     ]
-    log('verus: %d function(s) verified, %d error(s), %.1fs' % (vr.get('verified', 0), vr.get('errors', 0), wall))
+    log('verus: %d function(s) verified, %d error(s), %.1fs%s' % (vr.get('verified', 0), vr.get('errors', 0), wall, (' (helpers: %d, left out: %d)' % (len(extra), len(dropped_specs))) if (extra or dropped_specs) else ''))
+    assumptions = assumptions + ['Verus: ' + n for n in notes]
     for s in mine:
         fq = '%s%s' % ((s['impl'] + '::') if s.get('impl') else '', s['name'])
         fb = per_fn.get(fq)
         rng = [(a, b) for (a, b, sp) in index if sp is s]
         my_errs = [msg for (msg, ln) in errs if rng and rng[0][0] <= ln <= rng[0][1]]
         secs = (fb or {}).get('time-micros', 0) / 1e6
-        if fb is None:
+        if fq in dropped_names:
+            results.append({'obligation': mk_ob(s, 'undecided', 0), 'verdict': 'undecided', 'reason': 'the function no longer fits the subset of Rust that Verus accepts (left out of the extracted file; its Kani obligations still run)', 'assumptions': assumptions})
+        elif fb is None:
             results.append({'obligation': mk_ob(s, 'undecided', 0), 'verdict': 'undecided', 'reason': 'function missing from Verus output', 'assumptions': assumptions})
         elif fb.get('success'):
             results.append({'obligation': mk_ob(s, 'discharged', secs), 'verdict': 'discharged', 'assumptions': assumptions})
         elif any(re.search(r'rlimit|resource limit|timed? ?out', m, re.I) for m in my_errs):
             results.append({'obligation': mk_ob(s, 'undecided', secs), 'verdict': 'undecided', 'reason': '; '.join(my_errs), 'assumptions': assumptions})
         else:
-            results.append({'obligation': mk_ob(s, 'refuted', secs), 'verdict': 'refuted',
-                            'messages': my_errs or ['verus: function failed to verify'], 'assumptions': assumptions})
+            # A failed Verus proof is a VIOLATION only when the failure cannot come from a missing
+            # annotation: the function's text has no loop (would need an invariant) and calls no helper
+            # that was pulled in without a contract (modular verification sees nothing of its body).
+            body_text = '\n'.join(text.split('\n')[rng[0][0] - 1:rng[0][1]]) if rng else ''
+            helper_names = [e['name'] for e in extra]
+            needs_annotation = bool(re.search(r'\b(loop|while|for)\b', body_text)) or \
+                any(re.search(r'\b%s\s*\(' % re.escape(hn), body_text) for hn in helper_names)
+            if needs_annotation:
+                results.append({'obligation': mk_ob(s, 'undecided', secs), 'verdict': 'undecided',
+                                'reason': 'Verus cannot prove the postcondition, but the function now contains a loop or calls a helper that carries no contract; '
+                                          'a failed proof is not a violation (the Kani obligations on the same function decide)', 'assumptions': assumptions})
+            else:
+                results.append({'obligation': mk_ob(s, 'refuted', secs), 'verdict': 'refuted',
+                                'messages': my_errs or ['verus: function failed to verify'], 'assumptions': assumptions})
     return results
 
 
